@@ -480,7 +480,7 @@ namespace {
                 }
                 else if ( Ad::has_try && rng.chance( 1, 2 )) {
                     int r = Ad::has_try_n && rng.chance( 1, 2 ) ? ad.try_lock_n( i, 1 ) : ad.try_lock( i );
-                    if ( r < 0 ) harness_failure( "calibration: try_lock failed on a free lock (single thread): " + name );
+                    if ( r < 0 ) continue;      // not part of C22 (a weak CAS may fail spuriously); nothing acquired
                     ++depth[r];
                     uint64_t d = cdsv_rt_my_steps() - s0; if ( d > c.max_try ) c.max_try = d;
                 }
@@ -590,7 +590,13 @@ namespace {
         }
     }
 
+#if defined(__SANITIZE_THREAD__)
+    const double BUDGET_QUICK_S = 14.0;
+#else
+    const double BUDGET_QUICK_S = 18.0;
+#endif
     double g_deadline_step = 0, g_t0 = 0;
+    HangGuard* g_guard = nullptr;
     unsigned g_variant_no = 0;
 
     template <class Ad>
@@ -606,11 +612,10 @@ namespace {
         double deadline = g_t0 + g_deadline_step * ( my_no + 1 );
         uint64_t i = 0;
         for ( ; i < runs; ++i ) {
-            if ( i % 20 == 0 ) {
-                if ( i && wall_now() > deadline ) break;       // wall-clock budget of the tier (only cuts the number of runs)
-                crew.reset(); crew.reset( new Crew( 4 ));      // fresh OS thread ids (reentrant locks store them)
-            }
+            if ( i && i % 10 == 0 && wall_now() > deadline ) break;     // wall-clock budget of the tier (only cuts the number of runs)
+            if ( i % 20 == 0 ) { crew.reset(); crew.reset( new Crew( 4 )); }   // fresh OS threads (and thread ids) now and then
             one_run<Ad>( *crew, name, cal, i, tot, ps );
+            g_guard->tick();
         }
         if ( i < runs ) ps.add_extra( "runs_not_made_because_of_the_wall_clock_budget", runs - i );
         ps.evaluations.fetch_add( tot.runs );
@@ -658,8 +663,10 @@ int main( int argc, char** argv )
 #elif defined(__SANITIZE_ADDRESS__)
     runs = args().n( 120, 2400 );
 #endif
+    HangGuard guard( "locks", 12.0 );
+    g_guard = &guard;
     g_t0 = wall_now();
-    g_deadline_step = ( args().thorough ? 400.0 : 20.0 ) * args().scale / 21.0;
+    g_deadline_step = ( args().thorough ? 360.0 : BUDGET_QUICK_S ) * ( args().scale > 1 ? args().scale : 1.0 ) / 21.0;   // --scale < 1 cuts the planned runs, not the budget
     using namespace cds::sync;
     namespace bk = cds::backoff;
     typedef cds::sync::spin Spin;
@@ -684,5 +691,6 @@ int main( int argc, char** argv )
     run_variant< MonitorAdapter< pool_monitor< pools<Spin>::vyukov, bk::Default, true >, InstrLock<Spin>, true, true > >( "pool_monitor<vyukov_queue_pool<spin>,Default,stat>", runs );
     run_variant< MonitorAdapter< pool_monitor< pools<Spin>::lazy, bk::yield, false >, InstrLock<Spin>, true, false > >( "pool_monitor<lazy_vyukov_queue_pool<spin>,yield>", runs );
     run_variant< MonitorAdapter< pool_monitor< pools<std::mutex>::vyukov, cds::opt::none, true >, InstrLock<std::mutex>, true, true > >( "pool_monitor<vyukov_queue_pool<std::mutex>,none,stat>", runs );
+    g_guard = nullptr;
     return finish( "locks" );
 }
